@@ -76,6 +76,16 @@ CLAIMED = {
    text="TLC enumerates every file of matrix A (rules: 3 reference kinds x 4 name forms x 7 names incl. case variants x <=1 import out of 120 (thorough: <=2) x 6 namespace forms; 68k files), matrix B (all 29 referencing sites incl. nullable/typed-property/arrow-function/multi-catch/trait adaptations x forms x imports; 99k files), matrix C (special names) and simulates long files with several namespace sections, group use and declarations. Each file is rendered, parsed and resolved by the real code; ResolvedNames must equal the specification's map: no missing, wrong or extra entry (keys = node start offsets). TLC also checks rule-level invariants (import independence of fq/relative names, case rule, namespace statement drops imports).",
    note="Trusted: my reading of PHP's rules in NsResolver.tla; per-site rendering templates (vf/c14.py). Scalar type names are treated as special at every class-name site because the property says so (PHP itself only does that in type positions). Special names compared case-insensitively.",
    design="5 (C14), 3.6"),
+ "C06": dict(
+   technique="SyntaxGen.tla derivations (Syntax.tla) broken by three language-leaving edits, replayed on the real parser (>= 1 error must be delivered); error-shape, silent-implies-complete and callback-independence checks on broken programs, Lexer.tla's transition cover and random bytes",
+   text="Each generated (bracket-balanced) program is edited by inserting an unmatched closing bracket at a token boundary outside string bodies, deleting a mandatory closing bracket, or truncating after a token that demands a continuation; every edited program must produce at least one error under two versions of its family. For all these inputs plus the scanner cover and random bytes: every error has a non-empty message and no position or an in-range one with lines by the LF/CRLF/CR rule; start offsets are non-decreasing; zero errors implies a non-nil root that prints back to the whole source; parsing with and without callback yields the same tree fingerprint.",
+   note="Trusted: the argument that the three edits leave the language for bracket-balanced programs of Syntax.tla; analyze.go's error checks. The LR-driver-level statement (FirstErrorReported on LRDriver.tla) is future work recorded in DESIGN.md.",
+   design="5 (C06)"),
+ "C07": dict(
+   technique="statement sequences derived from Syntax.tla with a malformed statement inserted at every boundary (3 list contexts), replayed on the real parser and compared statement-by-statement with the unbroken parse (fingerprints); no-invention checks on every tree returned with errors",
+   text="4-statement sequences of generated statements are placed at top level, in a function body and in a block; a malformed, bracket-balanced statement from a menu is inserted at each boundary. When the parser recovers (tree returned), the statements before the insertion point must be present in the same list with fingerprints (tokens, offsets, positions) identical to the unbroken parse, and at least one later statement must be present. Every tree returned with errors (also from the scanner cover and random bytes) must have tokens with strictly increasing disjoint offsets holding source slices, no shared node/token, and print exactly the concatenation of its tokens.",
+   note="Trusted: menu of malformed statements; fingerprint identity. goyacc driver-level properties (PrefixKept, NoInvention on LRDriver.tla) are future work recorded in DESIGN.md.",
+   design="5 (C07)"),
 }
 
 REASONS_PENDING = "check not built yet in this round; see DESIGN.md section 9 for the construction order"
